@@ -30,6 +30,10 @@ Proved here for all designs, states and events:
   changes the state by exactly its active assignments, the last one winning per bit; every other bit of every
   signal — also the undriven bits of a partially driven signal, and signals of other domains — keeps its value.
 
+* `edge_reset` — at an active edge with the domain's reset asserted, every driven bit of every resettable signal
+  the process drives takes its initial value, bit for bit; reset-less signals take the assigned values as without
+  reset; undriven bits keep theirs.
+
 Not proved for all inputs (compared on every run): that the reset assignments (`signal[chunk] :=
 init[chunk]` per driven chunk) load exactly the driven bits — the bit-level `assign_bits` lemma
 shared with C02 — and the combinational settling.
@@ -151,6 +155,18 @@ theorem edge_writes (D : Design) (cur cur' : Env) (hok : EnvOk D.ctx cur') (p : 
     | some r => simp only [Option.map_some, hnr r hr, Bool.false_eq_true, if_false]
   rw [hs]
   exact sync_process_effect D.ctx cur' hok p.body acc hC hA htg hown
+
+/-- At an active edge with the domain's reset asserted: the driven (masked) bits of a resettable signal the process
+drives take the initial value; anything else is as at an edge without reset. -/
+theorem edge_reset (ctx : Ctx) (cur : Env) (hok : EnvOk ctx cur) (inits : Env) (hI : EnvN ctx inits) (rl : List Bool)
+    (r : Int) (hr : (pyAnd 1 r != 0) = true) (body : Stmt) (acc : Env) (hC : EnvN ctx cur) (hA : EnvN ctx acc)
+    (htg : ∀ e ∈ stmtTargets body, e.twf ctx = true ∧ e.noAlias ctx cur)
+    (i b : Nat) (hi : i < ctx.length) (hb : b < (ctx.shape i).width) :
+    bitAt (commitInto ctx body (syncNext ctx inits rl (some r) body cur) acc) i b =
+      if (stmtSigs body).contains i && !(rl.getD i false) then
+        (if ibit ((stmtMask ctx body (List.replicate ctx.length 0)).get i) b then bitAt inits i b else bitAt acc i b)
+      else bitAt (commitInto ctx body (execRtl ctx cur body cur) acc) i b :=
+  sync_reset_bits ctx cur hok inits hI rl r hr body acc hC hA htg i b hi hb
 
 /-- A rising asynchronous reset never touches reset-less signals, nor signals the domain does not drive. -/
 theorem async_reset_only_resettable (ctx : Ctx) (inits : Env) (rl : List Bool) (body : Stmt) (acc : Env) (i : Nat)
